@@ -1,6 +1,11 @@
 mod c0103;
 mod c05;
 mod c06;
+mod c08;
+mod c09;
+mod refkiki;
+mod corpus;
+mod reflex;
 mod c18;
 mod common;
 mod extract;
@@ -43,6 +48,8 @@ fn main() {
                 "C03" => c0103::run(&ctx, "C03"),
                 "C05" => c05::run(&ctx),
                 "C06" => c06::run(&ctx),
+                "C08" => c08::run(&ctx),
+                "C09" => c09::run(&ctx),
                 "C04" => gramsweep::run_c04(&ctx),
                 "C11" => gramsweep::run_c11(&ctx),
                 "C17" => gramsweep::run_c17(&ctx),
